@@ -178,7 +178,7 @@ def file_view(inp, ext):
         d['C'] = [c for c in C if len(c) == 4] + [c for c in C if len(c) == 8]
         return d
     if ext == 'off':
-        if E or any(len(f) != 3 for f in F) or any(len(c) != 4 for c in C) or not (F or C): return None
+        if E or C or not F: return None      # OFF expresses polygonal faces only (a 4-vertex element is a quad, not a cell)
         return dict(inp)
     if ext == 'tet':
         if E or F or not C or any(len(c) != 4 for c in C): return None
